@@ -23,5 +23,19 @@ p = os.path.join(V, "DESIGN.md")
 s = open(p).read()
 b, e = "<!-- selftest-table-begin -->", "<!-- selftest-table-end -->"
 s = s[:s.index(b) + len(b)] + "\n" + "\n".join(rows) + "\n" + s[s.index(e):]
+# per-property summary from the evidence files of the last runs
+rows2 = ["| property | tier of last run | functions under contract | obligations (all discharged) | back ends | bounded stand-ins (not counted) |", "|---|---|---|---|---|---|"]
+import glob
+for f in sorted(glob.glob(os.path.join(V, "evidence", "C*.json"))):
+    e = json.load(open(f))
+    c = e["coverage"]
+    fns = [x["name"].replace("github.com/tigerwill90/fox", "fox") for x in c.get("functions_under_contract", [])]
+    be = ", ".join(f"{k}: {v}" for k, v in sorted(c.get("by_backend", {}).items()))
+    bd = "; ".join(f"{(b.get('spec') or b.get('Spec') or {}).get('test','')}" for b in (c.get("bounded") or []))
+    shown = ", ".join(fns[:6]) + (f", … ({len(fns)} in all)" if len(fns) > 6 else "")
+    rows2.append(f"| {e['property_id']} | {e['tier']} | {shown} | {c['obligations']} ({c['discharged']}) | {be} | {bd or '—'} |")
+b2, e2 = "<!-- evidence-table-begin -->", "<!-- evidence-table-end -->"
+if b2 in s:
+    s = s[:s.index(b2) + len(b2)] + "\n" + "\n".join(rows2) + "\n" + s[s.index(e2):]
 open(p, "w").write(s)
 print(f"{len(res)} changes, {det} detected")
